@@ -711,8 +711,15 @@ class Differ:
             else:
                 self._diff_scalars(path, lhs, rhs, **kwargs)
         else:
+            diff_count = len(self._diffs)
             self._purge_document(path, lhs)
             self._add_everything(path, rhs)
+            if len(self._diffs) == diff_count:
+                # Neither side has any content to delete or add (each is
+                # null or an empty container) yet they are of different
+                # types, which is a change.
+                self._diffs.append(
+                    DiffEntry(DiffActions.CHANGE, path, lhs, rhs, **kwargs))
 
     @classmethod
     def synchronize_lists_by_value(
